@@ -163,6 +163,7 @@ type World struct {
 	posExtra    func(q *ecs.Query) map[string]interface{}
 	valSeq      int
 	lastDump    *ecs.EntityDump
+	dumps    int
 	pendingPrev map[int64]bool
 	lateTypes   int
 	// generic resource mappers are created once per world and re-used, as user code does
